@@ -20,7 +20,7 @@ From Coq Require Import NArith List Bool.
 From Coq Require String.
 Import Coq.Strings.String.StringSyntax.
 From GT Require Import Base.GErrStr.
-From GT Require Import GErrModel GErrSpec GErrProofs GErrRace GErrRaceProofs.
+From GT Require Import GErrModel GErrSpec GErrProofs GErrRace GErrRaceProofs GErrMetric GErrMetricProofs.
 Import ListNotations.
 
 (* the full property, as far as a functional model can state it: every law below at once *)
@@ -80,6 +80,17 @@ Theorem C15_source : forall xw st st' v r g g' ch,
   forallb derived_ok (map (eff_of (wt_of xw v)) ch) = true ->
   g_src g' = first_nonempty (g_src g :: map src_candidate (map (eff_of (wt_of xw v)) ch)).
 Proof. exact law_source. Qed.
+
+(* the derived source is gerror's rendering (stack.go SourceInfo/Metric, modelled by [metric])
+   of the calling frame's function name; it always contains ':' and so is never empty, which
+   discharges the hypothesis on the oracle strings *)
+Theorem C15_derived_source_nonempty : forall name, nonempty (metric name) = true.
+Proof. exact metric_nonempty. Qed.
+
+Theorem C15_derived_ok_from_frames : forall wt ch,
+  (forall s, In s ch -> exists f, a_derived (snd s) = metric f) ->
+  forallb derived_ok (map (eff_of wt) ch) = true.
+Proof. exact derived_ok_of_metric. Qed.
 
 (* never overwritten: once a prefix of the chain has produced a source, any continuation
    keeps it *)
@@ -198,3 +209,5 @@ Print Assumptions C15_all.
 Print Assumptions C15_call_defined.
 Print Assumptions C15_no_shared_writes.
 Print Assumptions C15_race_free_model.
+Print Assumptions C15_derived_source_nonempty.
+Print Assumptions C15_derived_ok_from_frames.
